@@ -462,6 +462,37 @@ func (e *symbolsEngine) Exec(op string) string {
 					break
 				}
 			}
+			// ... and an import that returned an error must have left nothing behind (C17): a name of
+			// a failed file that no successfully imported file defines must not be found. Files with
+			// extensions are left out: extension-number collisions are detected after the commit
+			// (recorded finding), also without any concurrency.
+			if lost == "" {
+				okNames := map[string]bool{}
+				for gi, id := range ids {
+					if okImp[gi] {
+						for _, sy := range e.defs[id].syms {
+							okNames[sy.name] = true
+						}
+					}
+				}
+			residue:
+				for gi, id := range ids {
+					if okImp[gi] {
+						continue
+					}
+					for _, sy := range e.defs[id].syms {
+						if sy.kind == "x" {
+							continue residue
+						}
+					}
+					for _, sy := range e.defs[id].syms {
+						if !okNames[sy.name] && tab.Lookup(protoreflect.FullName(sy.name)) != nil {
+							lost = fmt.Sprintf("residue f%d %s", id, sy.name)
+							break residue
+						}
+					}
+				}
+			}
 		}
 		if lost != "" {
 			return lost
